@@ -1,6 +1,7 @@
 import TrackVerif.LT.TextLemmas
 import TrackVerif.LT.Spec
 import TrackVerif.LT.CodecLemmas
+import TrackVerif.LT.XmlLemmas
 import TrackVerif.Generated.LT
 /-
   C13 — Encoded LapTimer files are well-formed XML in LapTimer's field syntax.
@@ -72,6 +73,22 @@ theorem int_text_plain (i : Int) : ∀ c ∈ (toString i).toList, c = '-' ∨ c.
     rcases List.mem_cons.mp hc with h | h
     · left; exact h
     · right; rw [Nat.toList_repr] at h; exact Nat.isDigit_of_mem_toDigits (by decide) (by decide) h
+
+/-- **the whole document**: whatever the marshalled token stream is (any database), the bytes the
+    encoder writes — indenting printer with Go escaping, cut into lines, each line run through the
+    replacer — are the UTF-8 header followed by the same indented printing with every text and
+    attribute value in LapTimer's character spelling; markup and indentation are untouched -/
+theorem document_is_laptimer_rendering (db : V) (root : String) (toks : List Xml.XTok)
+    (hroot : rootName Spec.schema "DB" = some root)
+    (hm : marshalValue Spec.schema 64 root false (.named "DB") db = .ok toks)
+    (hok : toks.all Xml.tokOk = true) :
+    encodeDoc Spec.schema db = .ok (Xml.xmlHeader ++ Xml.renderLTFrom {} toks) := by
+  unfold encodeDoc
+  simp only [hroot, hm, Outcome.map, replacer_pairs, Outcome.bind]
+  rw [filterDoc_eq_replaceAll]
+  have := Xml.replace_render {} toks hok []
+  simp only [List.append_nil, replaceFrom] at this
+  simp only [replaceAll, Xml.renderToks, this]
 
 /-! ### Field syntax, for every value -/
 
